@@ -135,6 +135,18 @@ func NewEx(conf *Config, fset *token.FileSet, files ...*ast.File) (ret Result, e
 		}
 		err = ctx.errs.ToError()
 	}()
+	if len(ctx.errs) == 0 {
+		// reject left-recursive rules (matching them would recurse forever):
+		// First panics with a RecursiveError when a rule is reachable from itself
+		// without consuming a token.
+		for _, f := range files {
+			for _, decl := range f.Decls {
+				if decl, ok := decl.(*ast.Rule); ok {
+					rules[decl.Name.Name].First(nil)
+				}
+			}
+		}
+	}
 	onConflict := conf.OnConflict
 	if onConflict == nil {
 		onConflict = onConflictDefault
